@@ -42,7 +42,7 @@ def Admits (g : Option LenGuard) (n : Nat) : Prop := ∀ len, passes g len = tru
 theorem userGuard : findLen Generated.lenGuards_UserParse "parts" = some ⟨.ne, 7, "return"⟩ := by decide
 theorem groupGuard : findLen Generated.lenGuards_GroupParse "parts" = some ⟨.ne, 4, "return"⟩ := by decide
 
-theorem admits_ne (n : Nat) (how : String) (h : how ≠ "then") : Admits (some ⟨.ne, n, how⟩) n := by
+theorem guard_ne (n : Nat) (how : String) (h : how ≠ "then") : Admits (some ⟨.ne, n, how⟩) n := by
   intro len hp
   simp [passes, h, Op.holds] at hp
   omega
@@ -67,7 +67,7 @@ theorem userParse_of_guard (gs : GuardList) (h : Admits (findLen gs "parts") 7) 
 
 /-- T: `UserEntry.Parse` never indexes out of range, on any line -/
 theorem userParse_no_oob (line : Text) : userParse Generated.lenGuards_UserParse line ≠ .oob :=
-  userParse_of_guard _ (by rw [userGuard]; exact admits_ne 7 _ (by decide)) line
+  userParse_of_guard _ (by rw [userGuard]; exact guard_ne 7 _ (by decide)) line
 
 theorem userParse_unguarded_oob : userParse [] "a:b".toList = .oob := by decide
 
@@ -87,7 +87,7 @@ theorem groupParse_of_guard (gs : GuardList) (h : Admits (findLen gs "parts") 4)
 
 /-- T: `GroupEntry.Parse` never indexes out of range -/
 theorem groupParse_no_oob (line : Text) : groupParse Generated.lenGuards_GroupParse line ≠ .oob :=
-  groupParse_of_guard _ (by rw [groupGuard]; exact admits_ne 4 _ (by decide)) line
+  groupParse_of_guard _ (by rw [groupGuard]; exact guard_ne 4 _ (by decide)) line
 
 theorem groupParse_unguarded_oob : groupParse [] "g:x:1".toList = .oob := by decide
 
@@ -202,7 +202,7 @@ theorem controlValues_no_oob (want : List Text) (t : Text) :
     controlValues Generated.lenGuards_controlValue want t ≠ .oob := by
   unfold controlValues
   refine bind_ne_oob (mapAllRes_ne_oob _ (fun l => ?_) _) (fun _ => by simp)
-  exact controlLine_of_guard _ (by rw [controlGuard]; exact admits_ne 2 _ (by decide)) want l
+  exact controlLine_of_guard _ (by rw [controlGuard]; exact guard_ne 2 _ (by decide)) want l
 
 theorem controlValues_unguarded_oob : controlValues [] ["datahash".toList] "datahash".toList = .oob := by
   decide
@@ -291,7 +291,7 @@ theorem tie_sites_GetRepositoryIndexes : Generated.sites_GetRepositoryIndexes =
 theorem repoGuard :
     findLen Generated.lenGuards_GetRepositoryIndexes "parts" = some ⟨.lt, 2, "return"⟩ := by decide
 
-theorem admits_lt (n : Nat) (how : String) (h : how ≠ "then") : Admits (some ⟨.lt, n, how⟩) n := by
+theorem guard_lt (n : Nat) (how : String) (h : how ≠ "then") : Admits (some ⟨.lt, n, how⟩) n := by
   intro len hp
   simp [passes, h, Op.holds] at hp
   omega
@@ -320,7 +320,7 @@ theorem repoLine_of_guard (gs : GuardList) (pgs : PrefixList) (h : Admits (findL
 because `strings.Fields` returns no empty field, `parts[1]` because of the length check -/
 theorem repoLine_no_oob (repo : Text) :
     repoLine Generated.lenGuards_GetRepositoryIndexes Generated.prefixGuards_GetRepositoryIndexes repo ≠ .oob :=
-  repoLine_of_guard _ _ (by rw [repoGuard]; exact admits_lt 2 _ (by decide)) repo
+  repoLine_of_guard _ _ (by rw [repoGuard]; exact guard_lt 2 _ (by decide)) repo
 
 theorem repoLine_unguarded_oob : repoLine [] [("repo", "@", "then")] "@edge".toList = .oob := by decide
 
